@@ -68,8 +68,25 @@ Definition path_join (a b : str) : str :=
 Record config := Cfg {
   c_tmp : option str; c_xdev : bool; c_backup : option str;
   c_mbis : bool;    (* makeBackupIfSmaller *)
-  c_aeo : bool      (* allowEmptyOverwrite *)
+  c_aeo : bool;     (* allowEmptyOverwrite *)
+  c_link : option path   (* environment fact: the target path is a symbolic link to this path
+                            (e.g. conf/users.conf -> ../store/users.conf); None = not a link *)
 }.
+
+(* Symbolic link at the target path.  The map [fs] holds regular files only; a
+   live link at fn -> q is "no regular file at fn", and everything that OPENS
+   the path (open(fn,'a'), open(fn,'wb') of shutil.copyfile, exists/getsize,
+   the loader) goes through to q, whereas os.rename(temp, fn) replaces the
+   directory entry fn itself -- the link -- by the regular file (q keeps its old
+   content).  [thr] = the path an open() of the target reaches, [rd] = what
+   reading the target path yields. *)
+Definition thr (cfg : config) (fn : path) : path :=
+  match c_link cfg with Some q => q | None => fn end.
+Definition rd (cfg : config) (fn : path) (f : fs) : option bytes :=
+  match c_link cfg with
+  | Some q => match f fn with Some b => Some b | None => f q end
+  | None => f fn
+  end.
 
 Definition xdev_eff (cfg : config) : bool :=
   match c_tmp cfg with None => false | Some _ => c_xdev cfg end.
@@ -151,18 +168,18 @@ Definition backup_effs (old : option bytes) (new : bytes) : list eff :=
 
 Definition move_effs (new : bytes) : list eff :=
   if xdev_eff cfg
-  then copy_effs chunk new fn ++ [Remove temp]         (* shutil.move -> copy2 + unlink *)
+  then copy_effs chunk new (thr cfg fn) ++ [Remove temp]   (* shutil.move -> copy2 (opens the target) + unlink *)
   else [Rename temp fn].
 
 Definition close_tail (old : option bytes) (new : bytes) : list eff :=
   if overwrite_allowed old new
-  then backup_effs old new ++ [Touch fn] ++ move_effs new
+  then backup_effs old new ++ [Touch (thr cfg fn)] ++ move_effs new
   else [].
 
 Definition close_effs (f : fs) : res (list eff) :=
   match f temp with
   | None => Raise OtherError                          (* os.path.getsize: FileNotFoundError *)
-  | Some new => Ok (close_tail (f fn) new)
+  | Some new => Ok (close_tail (rd cfg fn f) new)
   end.
 
 Definition step (st : afst) (f : fs) (o : op) : afst * list eff * res unit :=
@@ -270,7 +287,8 @@ Definition digits_ok (s : str) : bool := forallb (fun c => N.leb 48 c && N.leb c
 (* ---- wire ---- *)
 Definition gBytes (v : value) : bytes := gS v.
 Definition gCfg (v : value) : config :=
-  Cfg (gO gS (nth_v 0 v)) (gB (nth_v 1 v)) (gO gS (nth_v 2 v)) (gB (nth_v 3 v)) (gB (nth_v 4 v)).
+  Cfg (gO gS (nth_v 0 v)) (gB (nth_v 1 v)) (gO gS (nth_v 2 v)) (gB (nth_v 3 v)) (gB (nth_v 4 v))
+      (gO gS (nth_v 5 v)).
 Definition gOp (v : value) : op :=
   match gN (nth_v 0 v) with
   | 0 => OWrite (gBytes (nth_v 1 v))
@@ -315,13 +333,16 @@ Fixpoint states_at (fuel i : nat) (es : list eff) (f : fs) (ks : list nat) (out 
 (* run: (op payload)
    op 0: (fn tok now cfg fs0 ops chunk ks full_temp) ->
          ((temp backup) results effects (state after the first k effects, for k in ks))
-         state = (target temp backup), each () or (bytes); temp is (length) when full_temp = 0
+         state = (target-as-read temp backup link-target link-alive), each () or (bytes); temp is (length) when full_temp = 0
    op 3: same input, states computed as  apply (firstn k es) f0
    op 4: (fn tok now cfg fs0 ops chunk k inited full_temp) -> (effects-of-the-interrupted-flush final-state)
    op 5: text -> FlatfileMapping records ((id record) ...) or an exception
    op 1: (a b) -> path_join a b ; op 2: s -> basename s *)
-Definition vState (full : bool) (fn t b : path) (f : fs) : value :=
-  L [vO vS (f fn); (if full then vO vS (f t) else vO vLen (f t)); vO vS (f b)].
+Definition vState (full : bool) (cfg : config) (fn t b : path) (f : fs) : value :=
+  L [vO vS (rd cfg fn f); (if full then vO vS (f t) else vO vLen (f t)); vO vS (f b);
+     (* the link target's own content, and whether the link is still there *)
+     match c_link cfg with Some q => vO vS (f q) | None => L [] end;
+     vB (match c_link cfg, f fn with Some _, None => true | _, _ => false end)].
 
 Definition run_session (direct : bool) (p : value) : value :=
   let fn := gS (nth_v 0 p) in let tok := gS (nth_v 1 p) in let now := gS (nth_v 2 p) in
@@ -335,8 +356,8 @@ Definition run_session (direct : bool) (p : value) : value :=
   L [L [vS t; vS b];
      L (map (vR vUnit) rs);
      L (map vEff es);
-     L (if direct then map (fun k => vState full fn t b (apply (firstn k es) f0)) ks
-        else states_at (length es + length ks + 1) 0 es f0 ks (vState full fn t b))].
+     L (if direct then map (fun k => vState full cfg fn t b (apply (firstn k es) f0)) ks
+        else states_at (length es + length ks + 1) 0 es f0 ks (vState full cfg fn t b))].
 
 Definition run_unwind (p : value) : value :=
   let fn := gS (nth_v 0 p) in let tok := gS (nth_v 1 p) in let now := gS (nth_v 2 p) in
@@ -346,7 +367,7 @@ Definition run_unwind (p : value) : value :=
   let k := N.to_nat (gN (nth_v 7 p)) in
   let es := interrupted cfg fn tok now chunk f0 ops k (gB (nth_v 8 p)) in
   L [L (map vEff es);
-     vState (gB (nth_v 9 p)) fn (temp_name cfg fn tok) (backup_name cfg fn now) (apply es f0)].
+     vState (gB (nth_v 9 p)) cfg fn (temp_name cfg fn tok) (backup_name cfg fn now) (apply es f0)].
 
 Definition run (v : value) : value :=
   let p := nth_v 1 v in
